@@ -1788,6 +1788,75 @@ static void op_codec_batch(json_t *op, json_t *ev)
 	free(pre); free(alpha);
 }
 
+/* ============================================================ threads (C18) */
+/* {"op":"Threads","ring":0,"iters":N,"specs":[{"alg":"HS256","key":0,"vkey":0,"det":1},...]}
+ * Every spec is first executed sequentially (own builder and checker, shared
+ * ring), then all specs run concurrently, one thread each, with a random start
+ * skew.  One event per spec carries both result lists. */
+struct tspec { const char *alg; const jwk_item_t *key, *vkey; int det; long iters; unsigned skew; json_t *res; };
+static void *thread_body(void *arg)
+{
+	struct tspec *t = arg;
+	jwt_builder_t *b = jwt_builder_new();
+	jwt_checker_t *c = jwt_checker_new();
+	json_t *res = json_array();
+	jwt_value_t jv;
+	if (t->skew) usleep(t->skew);
+	jwt_builder_setkey(b, alg_enum(t->alg), t->key);
+	jwt_checker_setkey(c, alg_enum(t->alg), t->vkey);
+	for (long j = 0; j < t->iters; j++) {
+		char *tok, dig[20] = "-";
+		int r1 = -1, r2 = -1, g;
+		jwt_set_SET_INT(&jv, "n", j);
+		jv.replace = 1;
+		jwt_builder_claim_set(b, &jv);
+		tok = jwt_builder_generate(b);
+		g = tok != NULL;
+		if (tok) {
+			size_t n = strlen(tok);
+			if (t->det) { unsigned char d[32]; SHA256((unsigned char *)tok, n, d); for (int x = 0; x < 6; x++) sprintf(dig + 2 * x, "%02x", d[x]); }
+			r1 = jwt_checker_verify(c, tok);
+			tok[n - 2] = tok[n - 2] == 'A' ? 'B' : 'A';	/* damage the signature */
+			r2 = jwt_checker_verify(c, tok);
+			free(tok);
+		}
+		json_array_append_new(res, json_pack("[iiis]", g, r1, r2 ? 1 : 0, dig));
+	}
+	jwt_builder_free(b);
+	jwt_checker_free(c);
+	t->res = res;
+	return NULL;
+}
+static void op_threads(json_t *op, json_t *unused)
+{
+	struct ring *r = ring_of(op);
+	json_t *specs = json_object_get(op, "specs"), *sp;
+	size_t n = json_array_size(specs), i;
+	struct tspec *ts = calloc(n, sizeof *ts);
+	json_t **seq = calloc(n, sizeof *seq);
+	pthread_t *th = calloc(n, sizeof *th);
+	uint64_t rs = case_rng;
+	(void)unused;
+	json_array_foreach(specs, i, sp) {
+		ts[i].alg = jstr(sp, "alg", "HS256");
+		ts[i].key = jwks_item_get(r->set, (size_t)jint(sp, "key", 0));
+		ts[i].vkey = jwks_item_get(r->set, (size_t)jint(sp, "vkey", 0));
+		ts[i].det = (int)jint(sp, "det", 0);
+		ts[i].iters = jint(op, "iters", 10);
+		ts[i].skew = 0;
+	}
+	for (i = 0; i < n; i++) { thread_body(&ts[i]); seq[i] = ts[i].res; ts[i].res = NULL; }
+	for (i = 0; i < n; i++) ts[i].skew = jint(op, "skew", 1) ? (unsigned)(splitmix(&rs) % 3000) : 0;
+	for (i = 0; i < n; i++) if (pthread_create(&th[i], NULL, thread_body, &ts[i])) die("pthread_create");
+	for (i = 0; i < n; i++) pthread_join(th[i], NULL);
+	for (i = 0; i < n; i++) {
+		json_t *ev = json_pack("{s:s,s:I,s:s,s:i,s:o,s:o}", "e", "Thread", "t", (json_int_t)i, "alg", ts[i].alg, "det", ts[i].det,
+				       "seq", seq[i], "par", ts[i].res ? ts[i].res : json_array());
+		emit(ev); json_decref(ev);
+	}
+	free(ts); free(seq); free(th);
+}
+
 /* ================================================================ ops */
 static void free_all_objects(void)
 {
@@ -2094,6 +2163,8 @@ static void run_op(json_t *op)
 		json_object_set_new(ev, "cur", json_string(startup_ops));
 	} else if (!strcmp(name, "Codec")) {
 		op_codec(op, ev);
+	} else if (!strcmp(name, "Threads")) {
+		op_threads(op, ev);
 	} else if (!strcmp(name, "CodecBatch")) {
 		op_codec_batch(op, ev);
 	} else if (!strcmp(name, "AlgStr")) {
